@@ -450,22 +450,9 @@ def _split_multi_diags(dgs):
 EXTRA_MODULES = ["molgri.space.voronoi", "molgri.space.utils", "molgri.space.rotobj"]
 
 
-def run(ctx, repo, tier):
-    # ---------------- inherited: the direction-grid cell model itself (C03): the areas, arcs and angles that the shells scale come from it
-    from ..driver import PrefixCtx
-    from .. import voro as _voro
-    pc = PrefixCtx(ctx, "C05.", "C05.ogrid.")
-    _voro.pairwise_matrix(pc, repo, "C05", 3)
-    _voro.pair_functions(pc, repo, "C05", 3)
-    _voro.dispatch_model(pc, repo, "C05")
-    _voro.volumes_exact_3d(pc, repo, "C05")
-    _voro.getter_forwarding(pc, repo, "C05")
-    _voro.value_snapping(pc, repo, "C05")
-    _voro.one_construction(pc, repo, "C05")
-    _voro.pair_source(pc, repo, "C05")
-    forward_recurrences(ctx, repo)
+def position_volumes(ctx, repo):
+    """volumes of the position cells (shared with C14: the saved volumes are these times f^3 times the rotation volumes)"""
     where_v = "molgri/space/fullgrid.py:PositionGrid.get_all_position_volumes"
-    # ---------------- volumes
     hooks = GeoHooks(repo, n_b, n_o, n_t, bounds={"n_b": 4, "n_o": 4, "n_t": 2}, b_alg="cube4D", o_alg="ico")
     interp = Interp(repo, hooks, max_depth=20)
     fg = build_fullgrid(repo, interp, Const("b"), Const("o"), Const("t"))
@@ -495,6 +482,24 @@ def run(ctx, repo, tier):
     else:
         ctx.inconclusive("KERNEL", "C05.volumes", "volumes not derived as a (shell, direction) sequence", where_v,
                          witness=contains_top(vol) or vstr(vol)[:300])
+    return interp, pg
+
+
+def run(ctx, repo, tier):
+    # ---------------- inherited: the direction-grid cell model itself (C03): the areas, arcs and angles that the shells scale come from it
+    from ..driver import PrefixCtx
+    from .. import voro as _voro
+    pc = PrefixCtx(ctx, "C05.", "C05.ogrid.")
+    _voro.pairwise_matrix(pc, repo, "C05", 3)
+    _voro.pair_functions(pc, repo, "C05", 3)
+    _voro.dispatch_model(pc, repo, "C05")
+    _voro.volumes_exact_3d(pc, repo, "C05")
+    _voro.getter_forwarding(pc, repo, "C05")
+    _voro.value_snapping(pc, repo, "C05")
+    _voro.one_construction(pc, repo, "C05")
+    _voro.pair_source(pc, repo, "C05")
+    forward_recurrences(ctx, repo)
+    interp, pg = position_volumes(ctx, repo)
     # position coordinates: shell-major tiling, direction o scaled by r_k
     fv = interp.getattr(pg, "get_position_grid_as_array")
     pos = interp.call_value(fv, [], {}, None, None)
